@@ -2637,6 +2637,15 @@ func (c S3ApiController) PutActions(ctx *fiber.Ctx) error {
 			}
 			utils.SetResponseHeaders(ctx, hdrs)
 
+			// the notification carries the size of the new object
+			var objSize int64
+			if c.evSender != nil {
+				head, herr := c.be.HeadObject(ctx.Context(), &s3.HeadObjectInput{Bucket: &bucket, Key: &keyStart})
+				if herr == nil && head != nil && head.ContentLength != nil {
+					objSize = *head.ContentLength
+				}
+			}
+
 			return SendXMLResponse(ctx, res.CopyObjectResult, err,
 				&MetaOpts{
 					Logger:      c.logger,
@@ -2645,6 +2654,7 @@ func (c S3ApiController) PutActions(ctx *fiber.Ctx) error {
 					Action:      metrics.ActionCopyObject,
 					BucketOwner: parsedAcl.Owner,
 					ObjectETag:  res.CopyObjectResult.ETag,
+					ObjectSize:  objSize,
 					VersionId:   res.VersionId,
 					EventName:   s3event.EventObjectCreatedCopy,
 				})
@@ -3860,6 +3870,14 @@ func (c S3ApiController) CreateActions(ctx *fiber.Ctx) error {
 					},
 				})
 			}
+			// the notification carries the size of the assembled object
+			var objSize int64
+			if c.evSender != nil {
+				head, herr := c.be.HeadObject(ctx.Context(), &s3.HeadObjectInput{Bucket: &bucket, Key: &key})
+				if herr == nil && head != nil && head.ContentLength != nil {
+					objSize = *head.ContentLength
+				}
+			}
 			return SendXMLResponse(ctx, res, err,
 				&MetaOpts{
 					Logger:      c.logger,
@@ -3868,6 +3886,7 @@ func (c S3ApiController) CreateActions(ctx *fiber.Ctx) error {
 					Action:      metrics.ActionCompleteMultipartUpload,
 					BucketOwner: parsedAcl.Owner,
 					ObjectETag:  res.ETag,
+					ObjectSize:  objSize,
 					EventName:   s3event.EventCompleteMultipartUpload,
 					VersionId:   res.VersionId,
 				})
